@@ -159,8 +159,11 @@ pub trait Property: Sync {
     fn components(&self) -> Value;
     /// Real-time watchdog per run, seconds.
     fn watchdog_s(&self) -> u64 {
-        20
+        30
     }
+    /// A run ended abnormally (stall, panic): properties that say nothing
+    /// about the abnormality may turn it into an 'inconclusive' counter.
+    fn triage_abnormal(&self, _r: &mut RunResult) {}
 }
 
 // ------------------------------------------------------------ known findings
@@ -199,7 +202,7 @@ fn matches_known(v: &Violation, prop: &str, known: &[KnownFinding]) -> Option<us
 
 // ----------------------------------------------------------- running one run
 
-type RunReply = Result<RunResult, Box<dyn std::any::Any + Send>>;
+type RunReply = Result<RunResult, (Box<dyn std::any::Any + Send>, Option<(u64, u64)>)>;
 
 struct Job {
     prop: &'static dyn Property,
@@ -222,8 +225,13 @@ fn spawn_run_thread() -> std::sync::mpsc::Sender<Job> {
                     job.prop.execute(&job.plan, &job.exec, job.want_log)
                 }));
                 // a panicking run may leave a world installed on this thread
-                simseam::world::uninstall();
+                let left = simseam::world::uninstall();
                 simseam::clock::unset();
+                let r = match (r, left) {
+                    (Err(p), Some(w)) => Err((p, Some((w.address_lookup_count, w.trace.len() as u64)))),
+                    (Err(p), None) => Err((p, None)),
+                    (Ok(x), _) => Ok(x),
+                };
                 let _ = job.reply.send(r);
             }
         })
@@ -253,7 +261,7 @@ pub fn run_isolated(prop: &'static dyn Property, plan: &Value, exec: &Exec, want
     }
     match rx.recv_timeout(Duration::from_secs(prop.watchdog_s())) {
         Ok(Ok(r)) => r,
-        Ok(Err(panic)) => {
+        Ok(Err((panic, left))) => {
             let msg = if let Some(s) = panic.downcast_ref::<String>() {
                 s.clone()
             } else if let Some(s) = panic.downcast_ref::<&str>() {
@@ -263,17 +271,34 @@ pub fn run_isolated(prop: &'static dyn Property, plan: &Value, exec: &Exec, want
             };
             let kind = if msg.starts_with("HARNESS:") {
                 "harness_error"
+            } else if msg.starts_with("STALL:") {
+                "stall"
             } else {
                 "panic"
             };
-            RunResult {
-                violations: vec![Violation::new(kind).detail(json!({ "message": msg }))],
-                ..RunResult::default()
+            let mut v = Violation::new(kind).detail(json!({ "message": msg }));
+            if kind == "stall" {
+                // where it spins: a storm of name-server address lookups that
+                // never reach the network, or something else
+                let (lookups, upstream) = left.unwrap_or((0, 0));
+                v = v
+                    .fact("address_lookup_storm", lookups > 1000 * (upstream + 1))
+                    .detail(json!({ "message": msg, "address_lookups": lookups, "upstream_queries": upstream }));
             }
+            let mut r = RunResult {
+                violations: vec![v],
+                ..RunResult::default()
+            };
+            prop.triage_abnormal(&mut r);
+            r
         }
         Err(_) => {
-            // the thread is still spinning: abandon it
+            // the thread is still spinning: ask it to unwind at its next clock
+            // read, and abandon it
+            simseam::clock::ABORT.store(true, std::sync::atomic::Ordering::Relaxed);
             *RUN_THREAD.lock().unwrap() = None;
+            std::thread::sleep(Duration::from_millis(300));
+            simseam::clock::ABORT.store(false, std::sync::atomic::Ordering::Relaxed);
             RunResult {
                 violations: vec![Violation::new("hang").detail(json!({
                     "message": format!("run did not finish within {} s of real time", prop.watchdog_s())
